@@ -89,6 +89,16 @@ CLAIMED = {
              "placeholder notifier side (events / DeviceMonitor). _eval_bool_op is bounded to 3 operands. Known "
              "finding F-C16-a: item reads (machine['x']) are not subscribed.",
         ref="4.C16"),
+    "C19": dict(
+        text="Per-parameter round trip decode(encode(c, k=v)) = (c, {k: v}) with equal type for every str/int/float/"
+             "bool/None value: encode is verified to produce command?quote(k)=enc(v); a pure lemma shows that this wire "
+             "form plus the urllib axioms gives decode's precondition; decode is verified to return exactly (c, {k: v}). "
+             "Strings are solved by cvc5/z3 with urllib/json functions uninterpreted.",
+        note="Trusted: pyvc encoding, z3/cvc5, A-LIB axioms for quote/unquote/parse_qs/urlsplit/urlunparse, "
+             "int(str(i))=i, float(str(f))=f. One parameter per message; the JSON path (lists/dicts) and the framing of "
+             "read_message (undecided string obligations) are not claimed. Known findings F-C19-a/b: str values that "
+             "look like typed values or contain % do not round-trip (re-proved outside that input class every run).",
+        ref="4.C19"),
 }
 
 NA = {}
